@@ -214,63 +214,21 @@ def _doc_scopes(chain: list) -> list:
 
 
 def known_match(case: dict, detail: dict) -> Optional[str]:
-    """Returns the id of the listed finding that explains this failing observation, else None."""
-    kind = detail.get('kind')
-    if kind == 'script':
-        # C17-F2 / C17-F5 are fixed (b20c29d): a stale reverse record is a violation again
+    """Returns the id of the listed finding that explains this failing DECODE observation, else None.
+    Only C17-F4 is matched here (C17-F2/F3/F5/F6/F7/F11 are fixed: never matched).  Encode differences are not
+    matched by rules at all: they are explained by the model with the mechanisms of C17-F8/F9/F10 behind flags
+    (`judge_enc`)."""
+    if detail.get('kind') != 'element' or detail.get('phase') != 'decode':
         return None
     mode = case.get('mode')
-    if kind == 'encode-tree':
-        conv = detail['converter']
-        view = converters()[conv][1]
-        d = detail.get('diff') or {}
-        udef = dict(case.get('user') or []).get('')
-        if udef and d.get('kind') == 'element' and isinstance(d.get('document'), str) and d['document'][:1] != '{' \
-                and d.get('data') == '{%s}%s' % (udef, d['document']):
-            # C17-F4 (encode side): a no-namespace name is read into the user-supplied default namespace
+    exp_ns, key = detail['expected'][0], detail['key']
+    unprefixed = key[:1] != '{' and ':' not in key
+    chain = _chain(case['doc'], detail['node']) or []
+    if not exp_ns and unprefixed and detail.get('reported_default'):
+        # C17-F4: a name in no namespace emitted bare while the data reports a non-empty default namespace
+        own_default = any(p == '' for n in chain for p, _ in n['decl'])
+        if mode in ('collapsed', 'root-only') or (not own_default and dict(case.get('user') or []).get('')):
             return 'C17-F4'
-        if d.get('kind') == 'element' and isinstance(d.get('document'), str) and d['document'][:1] != '{' \
-                and d.get('data') == '{%s}%s' % (L.WILD, d['document']):
-            # C17-F10: the validators re-apply the parent's default namespace to a child name that the converter
-            # resolved to no namespace (xmlns=""), and the wildcard for that namespace admits it
-            return 'C17-F10'
-        if conv == 'unordered':
-            # C17-F6: two different keys of one parent denote the same expanded name
-            def collide(key, item, scope):
-                xmlns, _, ch = view(item)
-                s = dict(scope)
-                s.update(xmlns)
-                seen: dict = {}
-                for ck, it in ch:
-                    sx = dict(s)
-                    sx.update(view(it)[0])
-                    try:
-                        r = L.resolve(ck, sx, False)
-                    except L.Unresolved:
-                        continue
-                    if seen.setdefault(r, ck) != ck:
-                        return True
-                return any(collide(ck, it, s) for ck, it in ch)
-            return 'C17-F6' if collide(detail['key'], detail['item'], {}) else None
-        if conv == 'jsonml':
-            # C17-F8: declarations of a child of the root are merged into the root's map by the encoder
-            root_decl = {p for p, u in case['doc']['decl'] if u}
-            for c in case['doc']['ch']:
-                if any(p not in root_decl for p, _ in c['decl']):
-                    return 'C17-F8'
-        return None
-    if kind in ('element', 'attribute') and detail.get('phase') == 'decode':
-        exp_ns, key = detail['expected'][0], detail['key']
-        unprefixed = key[:1] != '{' and ':' not in key
-        doc = case['doc']
-        chain = _chain(doc, detail['node']) or []
-        if kind == 'attribute' and exp_ns and unprefixed and detail.get('reported_default') == exp_ns:
-            return 'C17-F7'
-        if kind == 'element' and not exp_ns and unprefixed and detail.get('reported_default'):
-            own_default = any(p == '' for n in chain for p, _ in n['decl'])
-            if mode in ('collapsed', 'root-only') or (not own_default and dict(case.get('user') or []).get('')):
-                return 'C17-F4'
-        return None
     return None
 
 
@@ -452,57 +410,6 @@ def node_walk(ctx: Ctx, case: dict, doc: dict, conv: str, data: Any, trace: dict
     return fails
 
 
-def encoder_reading(view, conv: str, key: str, item: Any, scope: dict, tag: Optional[str], hits: dict,
-                    doc: Optional[dict] = None) -> Any:
-    """What the library's own encoder makes of the data (dict-based converters): an unprefixed attribute key
-    under a default namespace is taken into it unless the element's type declares it unqualified (a key that
-    came from a namespaced attribute: C17-F7; from an undeclared attribute in no namespace: C17-F9), all items
-    listed under one key take the name resolved for the first item (C17-F3)."""
-    xmlns, attrs, ch = view(item)
-    s = dict(scope)
-    for p, u in xmlns:
-        s[p] = u
-    if tag is None:
-        tag = L.resolve(key, s, False)
-    table = ['y'] if (tag.split('}')[-1] in L.LOCALS and not tag.startswith('{%s}' % L.WILD)) else []
-    ra = []
-    for a in attrs:
-        r = L.resolve(a, s, True)
-        if r == a and a not in table and s.get(''):
-            r = L.qn(s[''], a)
-            fid = 'C17-F9' if a in ('y', 'z') else 'C17-F7'
-            hits[fid] = hits.get(fid, 0) + 1
-        ra.append(r)
-    rc = []
-    if conv == 'jsonml':
-        for k, it in ch:
-            rc.append(encoder_reading(view, conv, k, it, s, None, hits))
-    else:
-        groups: dict = {}
-        for k, it in ch:
-            groups.setdefault(k, []).append(it)
-        for k, items in groups.items():
-            first = None
-            if len(items) > 1:
-                # list value: name resolved once, with the xmlns of the first item (if it is a mapping)
-                fx = view(items[0])[0]
-                s0 = dict(s)
-                for p, u in fx:
-                    s0[p] = u
-                first = L.resolve(k, s0, False)
-            for it in items:
-                own = None
-                if first is not None:
-                    sx = dict(s)
-                    for p, u in view(it)[0]:
-                        sx[p] = u
-                    own = L.resolve(k, sx, False)
-                    if own != first:
-                        hits['C17-F3'] = hits.get('C17-F3', 0) + 1
-                rc.append(encoder_reading(view, conv, k, it, s, first, hits))
-    return [tag, sorted(ra), sorted(rc, key=repr)]
-
-
 def eval_trace(ctx: Ctx, case: dict, doc: dict, mode: str, trace: dict) -> None:
     """converters that report no xmlns entries: every key handed to the converter, resolved with the document's
     own in-scope declarations over the user map (stacked) resp. with the one final map (other modes), must
@@ -605,10 +512,9 @@ def eval_doc(ctx: Ctx, case: dict, doc: dict, conv: str, mode: str, data: Any, e
         ctx.count('encode not driven for this converter')
         return None
     wild_elems = any(n['tag'][0] == L.WILD for n in L.doc_nodes(doc))
-    wild_any = wild_elems or any(a[0] == L.WILD for n in L.doc_nodes(doc) for a in n['attrs']) or \
-        any(u == L.WILD for n in L.doc_nodes(doc) for _, u in n['decl'])
     if conv == 'badgerfish' and wild_elems:
         # xs:anyType children are stored without a list: single-child dicts are taken for wrappers when encoding
+        # (badgerfish.py:104-113): data shape, not naming — counted, not judged
         ctx.count('encode not evaluable (badgerfish, wildcard-matched elements: wrapper ambiguity)')
         return None
     counter, objids, tab = [0], {}, []
@@ -629,126 +535,127 @@ def eval_doc(ctx: Ctx, case: dict, doc: dict, conv: str, mode: str, data: Any, e
         # (badgerfish.py:104-113) and crashes; not a naming question — counted, not judged
         ctx.count('encode not evaluable (badgerfish single-child wrapper ambiguity)')
         return None
-    if elem is None and decode_ok and not doc['tag'][0] and dict(case.get('user') or []).get('') and \
-            any('data tag does not match XSD element name' in str(e) or 'Unmatched tag' in str(e) for e in eerrors):
-        # C17-F4 (encode side): the user-supplied default namespace is applied to the no-namespace root key
-        ctx.known_hit('C17-F4', case)
-        ctx.count('known:C17-F4 (encode)')
+    if etrace['init'] is None:
+        ctx.failure('encode did not create the converter', case, {'phase': 'encode', 'errors': [str(e)[:200] for e in eerrors[:2]]})
         return None
-    if elem is None and decode_ok and conv == 'jsonml' and any('Unmatched tag' in str(e) for e in eerrors) and \
-            known_match(case, {'kind': 'encode-tree', 'phase': 'encode', 'converter': conv, 'item': item, 'key': k}) == 'C17-F8':
-        ctx.known_hit('C17-F8', case)
-        ctx.count('known:C17-F8 (encode)')
-        return None
-    if elem is None and wild_elems and conv == 'jsonml' and decode_ok and any('Unmatched tag' in str(e) for e in eerrors):
-        # C17-F11: after the level-0 probe reset the context stack, an item's own tag resolves to another name
-        ctx.known_hit('C17-F11', case)
-        ctx.count('known:C17-F11 (encode, unmatched tag)')
-        return None
-    if elem is None and wild_any and any('is not loaded' in str(e) for e in eerrors):
-        # the wildcard namespace has no schema: not a naming question — counted, not judged
-        ctx.count('encode not evaluable (wildcard namespace not loaded)')
-        return None
-    if elem is None:
-        if decode_ok:
-            ctx.failure('decoded data cannot be encoded back', case, {'phase': 'encode', 'errors': [str(e)[:200] for e in eerrors[:2]]})
+    return {'item': enc_item, 'tab': tab, 'etrace': etrace, 'enc': None if elem is None else L.canon_elem(elem), 'got': got,
+            'decode_ok': decode_ok, 'errors': [str(e)[:200] for e in eerrors[:3]], 'wild_elems': wild_elems,
+            'expected_root': L.qn(*doc['tag'])}
+
+
+# the mechanisms of the listed encode findings: model runs (flags of EncFlags, initial map)
+ENC_RUNS = [('cur', {'f9': True, 'f10': True, 'init': 'real'}),
+            ('no9', {'f9': False, 'f10': True, 'init': 'real'}),       # C17-F9 repaired
+            ('no10', {'f9': True, 'f10': False, 'init': 'real'}),      # C17-F10 repaired
+            ('no8', {'f9': True, 'f10': True, 'init': 'clean'}),       # C17-F8 repaired
+            ('off', {'f9': False, 'f10': False, 'init': 'clean'})]     # all three repaired
+ENC_FINDING = {'no9': 'C17-F9', 'no10': 'C17-F10', 'no8': 'C17-F8'}
+
+
+def enc_request(case: dict, variant: str, tie: dict) -> dict:
+    conv = case['converter']
+    return {'op': 'encg', 'variant': variant, 'mode': case['mode'], 'item': tie['item'],
+            'declared': [[ns, loc] for ns in [''] + L.URIS for loc in L.LOCALS], 'unq': ['y'],
+            'ns': tie['etrace']['init']['ns'], 'rev': tie['etrace']['init']['rev'], 'user': case.get('user') or [],
+            'runs': [dict(f, ownTag=(conv == 'jsonml')) for _, f in ENC_RUNS]}
+
+
+def pred_tree(obs: list) -> Any:
+    return canon_from_obs([o for o in obs if not o.get('dropped')])
+
+
+def judge_enc(ctx: Ctx, case: dict, tie: dict, m: Optional[dict]) -> None:
+    """Encode: tie of the real run with the model of the code as it is (`cur`), and judgement of the property
+    (encoded names = names the data denotes).  A difference is a known finding exactly when the model with the
+    mechanisms of the listed findings reproduces the real output, the model with all of them switched off yields
+    the names the data denotes, and switching off the mechanism of that finding alone changes the prediction."""
+    enc, got = tie['enc'], tie['got']
+    if m is None:
+        # no model available (Lean build failed): differences cannot be attributed
+        if enc is not None and enc == got:
+            ctx.count('encode ok')
         else:
+            ctx.count('encode difference not attributable without the model')
+        return
+    ctx.traces += 1
+    if 'err' in m:
+        ctx.mismatch('driver error (encg)', case, None, m)
+        return
+    runs = {name: r for (name, _), r in zip(ENC_RUNS, m['runs'])}
+    cur = runs['cur']['obs']
+    preds = {name: pred_tree(r['obs']) for name, r in runs.items()}
+    explained_by = [ENC_FINDING[n] for n in ('no8', 'no9', 'no10') if preds[n] != preds['cur']]
+    if enc is None:
+        # the library refused the data: explained when the model resolves the ROOT key to another name than the
+        # element it is encoded for, and the root is right with the mechanisms off
+        root_cur, root_off = cur[0]['tag'], runs['off']['obs'][0]['tag']
+        udef = dict(case.get('user') or []).get('')
+        if root_cur != tie['expected_root'] and root_off == tie['expected_root'] and \
+                runs['no8']['obs'][0]['tag'] == tie['expected_root']:
+            ctx.known_hit('C17-F8', case)
+            ctx.count('known:C17-F8 (encode, root refused)')
+        elif root_cur != tie['expected_root'] and udef and root_cur == '{%s}%s' % (udef, tie['expected_root']) \
+                and not tie['decode_ok']:
+            # C17-F4 (encode side): the user-supplied default namespace is applied to the no-namespace root key
+            ctx.known_hit('C17-F4', case)
+            ctx.count('known:C17-F4 (encode, root refused)')
+        elif not tie['decode_ok']:
             ctx.count('encode skipped after known decode finding')
-        return None
-    enc = L.canon_elem(elem)
+        else:
+            ctx.failure('decoded data cannot be encoded back', case, {'phase': 'encode', 'errors': tie['errors'],
+                                                                       'model_root': root_cur})
+        return
+    # ---- tie: set_xmlns_context calls and produced names
+    ctx.count('encode run compared')
+    rcalls = []
+    for c in tie['etrace']['calls']:
+        # XsdAnyElement.raw_encode probes an undeclared item with element_encode before any_type.raw_encode encodes
+        # it (wildcards.py:606): the second call for the same (object, level) must leave the maps as they are
+        if rcalls and (rcalls[-1]['obj'], rcalls[-1]['level']) == (c['obj'], c['level']):
+            if (rcalls[-1]['ns'], rcalls[-1]['rev']) != (c['ns'], c['rev']):
+                ctx.mismatch('encode: repeated set_xmlns_context call changed the maps', case, c, rcalls[-1])
+                return
+            continue
+        rcalls.append(c)
+    mcalls = [o for o in cur if _is_map_id(tie['item'], o['id'])]
+    shape_issue = False
+    if tie['wild_elems'] and preds['cur'] != enc:
+        def lo(t):
+            return [t[0].split('}')[-1].split(':')[-1], sorted({a.split('}')[-1].split(':')[-1] for a in t[1]}),
+                    sorted((lo(c) for c in t[2]), key=repr)]
+        dd = L.first_diff(lo(preds['cur']), lo(enc))
+        shape_issue = dd is not None and dd.get('kind') == 'children'
+    if shape_issue:
+        # content of an xs:anyType element that the list/dict conventions cannot tell from simple content: children
+        # are missing in the produced tree (shape, not naming) — counted, not judged, not compared
+        ctx.count('encode not evaluable (xs:anyType content shape)')
+        return
+    if [(c['obj'], c['level']) for c in rcalls] != [(o['id'], o['level']) for o in mcalls]:
+        ctx.mismatch('encode: order of set_xmlns_context calls', case,
+                     [(c['obj'], c['level']) for c in rcalls], [(o['id'], o['level']) for o in mcalls])
+    else:
+        for i, (a, b) in enumerate(zip(rcalls, mcalls)):
+            if (a['ns'], a['rev']) != (b['ns'], b['rev']):
+                ctx.mismatch(f'encode: set_xmlns_context call #{i}: maps', case, [a['ns'], a['rev']], [b['ns'], b['rev']])
+                break
+    if preds['cur'] != enc:
+        ctx.mismatch('encode: expanded names of the produced tree', case, enc, preds['cur'])
+    # ---- the property
     if enc == got:
         ctx.count('encode ok')
-        if wild_elems:
-            # XsdAnyElement.raw_encode probes the item with element_encode(value, xsd_element) at level 0 before the
-            # real call (wildcards.py:606): an extra set_xmlns_context the model of the call pattern does not have
-            ctx.count('encode run not compared (wildcard-matched elements: extra level-0 probe call)')
-            return None
-        return {'item': enc_item, 'tab': tab, 'etrace': etrace, 'enc': enc}
-    hits: dict = {}
-    try:
-        pred = encoder_reading(view, conv, k, item, {}, None, hits, doc)
-    except L.Unresolved:
-        pred = None
-    if pred == enc and hits:
-        for fid, n in hits.items():
-            ctx.known_hit(fid, case)
+        return
+    detail = {'phase': 'encode', 'kind': 'tree', 'diff': L.first_diff(got, enc), 'explained_by': explained_by,
+              'model_reproduces': preds['cur'] == enc, 'model_off_is_reader': preds['off'] == got}
+    if preds['cur'] == enc and preds['off'] == got and explained_by:
+        for fid in explained_by:
+            ctx.known_hit(fid, case, detail)
             ctx.count('known:' + fid + ' (encode)')
-        return None
-    def norm9(t):
-        # C17-F9: an unqualified attribute the element type does not declare (z anywhere, y on a wildcard-matched
-        # element) read into the default namespace; documents never contain a namespaced z / y
-        und = ('z', 'y') if t[0].split('}')[-1] == 'w' else ('z',)
-        return [t[0], sorted(a.split('}')[-1] if a.split('}')[-1] in und else a for a in t[1]), sorted((norm9(c) for c in t[2]), key=repr)]
-    if decode_ok and norm9(enc) == norm9(got) and norm9(enc) != enc:
-        ctx.known_hit('C17-F9', case)
-        ctx.count('known:C17-F9 (encode)')
-        return None
-
-    def norm10(t):
-        # C17-F10: a declared local name (a, b) never occurs in the wildcard namespace in the documents
-        tag = t[0]
-        if tag.startswith('{%s}' % L.WILD) and tag.split('}')[-1] in L.LOCALS:
-            tag = tag.split('}')[-1]
-        return [tag, t[1], sorted((norm10(c) for c in t[2]), key=repr)]
-    if decode_ok and wild_elems:
-        def lo(t):
-            return [t[0].split('}')[-1], sorted(a.split('}')[-1] for a in t[1]), sorted((lo(c) for c in t[2]), key=repr)]
-        dd = L.first_diff(lo(got), lo(enc))
-        if dd is not None and dd.get('kind') == 'children':
-            # an xs:anyType element with a single child item and no attributes is taken for simple content by the
-            # list/dict conventions (JsonML, BadgerFish): content shape, not naming — counted, not judged
-            ctx.count('encode not evaluable (xs:anyType content shape)')
-            return None
-    if decode_ok and wild_elems and norm10(enc) != enc and norm10(norm9(enc)) == norm10(norm9(got)):
-        ctx.known_hit('C17-F10', case)
-        ctx.count('known:C17-F10 (encode)')
-        if norm9(enc) != enc:
-            ctx.known_hit('C17-F9', case)
-        return None
-    def norm_attr_ns(t):
-        return [t[0], sorted(a.split('}')[-1] for a in t[1]), sorted((norm_attr_ns(c) for c in t[2]), key=repr)]
-    if decode_ok and wild_elems and norm_attr_ns(norm10(enc)) == norm_attr_ns(norm10(got)):
-        # documents with wildcard-matched elements: only the namespaces of unprefixed attribute keys differ (the
-        # C17-F7 / C17-F9 reading of the encoder, combined with C17-F10 element names)
-        for fid in sorted(set(hits) & {'C17-F7', 'C17-F9'}) or ['C17-F9']:
-            ctx.known_hit(fid, case)
-            ctx.count('known:' + fid + ' (encode, combined)')
-        return None
-    def local_only(t):
-        # (a prefix the encoder could not resolve stays in the name: `k:a`)
-        # (two attribute keys that resolve to one name collapse: compare the sets of local names)
-        return [t[0].split('}')[-1].split(':')[-1], sorted({a.split('}')[-1].split(':')[-1] for a in t[1]}),
-                sorted((local_only(c) for c in t[2]), key=repr)]
-    if decode_ok and wild_any and conv == 'jsonml':
-        # JsonML resolves every item's own tag and attributes after its set_xmlns_context: once a level-0 probe of a
-        # wildcard match (C17-F11) has reset the context stack, any later name may take other bindings, collapse
-        # with another attribute or keep an unresolved prefix.  Documents that bind the wildcard namespace only.
-        ctx.known_hit('C17-F11', case)
-        ctx.count('known:C17-F11 (encode, jsonml after a context reset)')
-        return None
-    if decode_ok and wild_elems and local_only(enc) == local_only(got):
-        # documents with wildcard-matched elements, same shape and local names, namespaces differ:
-        # C17-F11 (JsonML: the level-0 probe of a wildcard-matched item resets the context stack and every item's
-        # own tag is resolved after its set_xmlns_context) resp. C17-F10 (an unprefixed child name below xmlns=""
-        # inside an element whose wildcard admits the parent's default namespace), possibly with C17-F9
-        fid = 'C17-F11' if conv == 'jsonml' else 'C17-F10'
-        ctx.known_hit(fid, case)
-        ctx.count('known:' + fid + ' (encode)')
-        return None
-    if not decode_ok:
-        # names were already wrong in the data (listed decode finding); the encoder cannot restore them
+        return
+    if not tie['decode_ok'] and preds['cur'] == enc:
+        # the names were already wrong in the data (listed decode finding): the encoder does what the model says
         ctx.count('encode differs after known decode finding')
-        return None
-    fid = known_match(case, {'kind': 'encode-tree', 'phase': 'encode', 'converter': conv, 'item': item, 'key': k,
-                             'diff': L.first_diff(got, enc)})
-    if fid:
-        ctx.known_hit(fid, case)
-        ctx.count('known:' + fid + ' (encode)')
-        return None
-    ctx.failure('encoding the decoded data does not restore the expanded names', case,
-                {'phase': 'encode', 'kind': 'tree', 'diff': L.first_diff(got, enc),
-                 'data': json.loads(json.dumps(data, default=str))})
-    return None
+        return
+    ctx.failure('encoding the decoded data does not restore the expanded names', case, detail)
 
 
 def compare_doc(ctx: Ctx, case: dict, doc: dict, trace: dict, m: dict, data: Any = None) -> None:
@@ -799,30 +706,6 @@ def compare_doc(ctx: Ctx, case: dict, doc: dict, trace: dict, m: dict, data: Any
         model = canon_item_model(m['item'])
         if real != model:
             ctx.mismatch('decoded data tree (keys, reported xmlns, attribute keys, pruning)', case, real, model)
-
-
-def compare_enc(ctx: Ctx, case: dict, tie: dict, m: dict) -> None:
-    """encode: set_xmlns_context calls of the real element_encode run and names of the produced XML tree"""
-    ctx.traces += 1
-    ctx.count('encode run compared')
-    if 'err' in m:
-        ctx.mismatch('driver error (enc)', case, None, m)
-        return
-    obs = m['obs']
-    mcalls = [o for o in obs if _is_map_id(tie['item'], o['id'])]
-    rcalls = tie['etrace']['calls']
-    if [(c['obj'], c['level']) for c in rcalls] != [(o['id'], o['level']) for o in mcalls]:
-        ctx.mismatch('encode: order of set_xmlns_context calls', case,
-                     [(c['obj'], c['level']) for c in rcalls], [(o['id'], o['level']) for o in mcalls])
-        return
-    for i, (a, b) in enumerate(zip(rcalls, mcalls)):
-        for f in ('ns', 'rev'):
-            if a[f] != b[f]:
-                ctx.mismatch(f'encode: set_xmlns_context call #{i}: {f}', case, a[f], b[f])
-                return
-    model = canon_from_obs(obs)
-    if model != tie['enc']:
-        ctx.mismatch('encode: expanded names of the produced tree', case, tie['enc'], model)
 
 
 def order_like_real(item: dict, calls: list) -> None:
@@ -928,7 +811,13 @@ def documents(ctx: Ctx, drv: Optional[Driver], variant: str) -> None:
             compare_doc(ctx, case, doc, trace, m, data)
     if drv is not None and ereqs:
         for (case, tie), m in zip(epend, drv.query(ereqs)):
-            compare_enc(ctx, case, tie, m)
+            if m is not None and 'runs' in m or 'err' in (m or {}):
+                judge_enc(ctx, case, tie, m)
+            else:
+                compare_enc_repaired(ctx, case, tie, m)
+    elif drv is None:
+        for case, tie in epend:
+            judge_enc(ctx, case, tie, None)
 
 
 def one_document(ctx: Ctx, drv: Optional[Driver], variant: str, doc: dict, xml: str, origin: str, nt: bool, mode: str,
@@ -980,15 +869,27 @@ def one_document(ctx: Ctx, drv: Optional[Driver], variant: str, doc: dict, xml: 
         reqs.append({'op': 'doc', 'variant': variant, 'mode': mode, 'user': user, 'tree': plain,
                      'prune': bool(prune), 'arule': ARULE})
         pend.append((case, mdoc, trace, data if not errors else None))
-        if tie is not None and any(c['level'] == 0 for c in tie['etrace']['calls'][1:]):
-            # XsdAnyElement.raw_encode probed an item at level 0 (wildcards.py:606, C17-F11): not in the model
-            ctx.count('encode run not compared (level-0 probe call of a wildcard match)')
-            tie = None
         if tie is not None:
-            order_like_real(tie['item'], tie['etrace']['calls'])
-            ereqs.append({'op': 'enc', 'variant': variant, 'mode': mode, 'item': tie['item'], 'tab': tie['tab'],
-                          'ns': tie['etrace']['init']['ns'], 'rev': tie['etrace']['init']['rev']})
+            if tie['enc'] is not None:
+                order_like_real(tie['item'], tie['etrace']['calls'])
+            ereqs.append(enc_request(case, variant, tie))
             epend.append((case, tie))
+            if tie['enc'] is not None and tie['enc'] == tie['got'] and not tie['wild_elems']:
+                # the repaired call pattern `encodeDoc` (theorem encoder_reads_data) on the runs that restore the names
+                ereqs.append({'op': 'enc', 'variant': variant, 'mode': mode, 'item': tie['item'], 'tab': tie['tab'],
+                              'ns': tie['etrace']['init']['ns'], 'rev': tie['etrace']['init']['rev']})
+                epend.append((case, tie))
+    elif tie is not None:
+        epend.append((case, tie))
+
+
+def compare_enc_repaired(ctx: Ctx, case: dict, tie: dict, m: dict) -> None:
+    """`encodeDoc` (no mechanism of a listed finding) must give the names of the real run whenever that run
+    restored the names the data denotes"""
+    ctx.traces += 1
+    ctx.count('encode run compared with the repaired model')
+    if canon_from_obs(m.get('obs', [])) != tie['enc']:
+        ctx.mismatch('encode: names by the repaired call pattern (encodeDoc)', case, tie['enc'], canon_from_obs(m.get('obs', [])))
 
 
 # ------------------------------------------------------------------------------------------------
@@ -1285,10 +1186,16 @@ def replay(ctx: Ctx, obj: dict) -> int:
             print('MODEL keys        :', [(o['id'], o['key'], o['attrs']) for o in m.get('obs', [])])
             compare_doc(ctx, case, doc, trace, m, data if not errors else None)
             if tie is not None:
-                me = drv.query([{'op': 'enc', 'variant': variant, 'mode': case['mode'], 'item': tie['item'], 'tab': tie['tab'],
-                                 'ns': tie['etrace']['init']['ns'], 'rev': tie['etrace']['init']['rev']}])[0]
-                print('MODEL encoded     :', canon_from_obs(me.get('obs', [])))
-                compare_enc(ctx, case, tie, me)
+                if tie['enc'] is not None:
+                    order_like_real(tie['item'], tie['etrace']['calls'])
+                print('REAL encoded      :', tie['enc'])
+                print('DATA denotes      :', tie['got'])
+                me = drv.query([enc_request(case, variant, tie)])[0]
+                for (name, _), r in zip(ENC_RUNS, me.get('runs', [])):
+                    print(f'MODEL encoded {name:5}:', pred_tree(r['obs']))
+                judge_enc(ctx, case, tie, me)
+        elif tie is not None:
+            judge_enc(ctx, case, tie, None)
     elif 'ops' in case:
         real = run_script(case['ns'], case['mode'], case['ops'], case.get('cfg'))
         print('REAL  :', json.dumps(real['steps']))
